@@ -26,11 +26,14 @@ def section(kind, n, body="ctx", src="git"):
                                  sum(1 for l in bl if l[:1] in b" +"))
     info = dict(kind=kind, old=f, new=f, event="modified", has_hunk=True, hunk_lines=bl,
                 mode=None, binary=False, body=body)
-    if src == "diffu":
-        # plain `diff -ru` output: no git extended headers
+    if src in ("diffu", "diffu_bare"):
+        # plain `diff -ru` output: no git extended headers; "diffu_bare": outputs of several `diff -u a b`
+        # runs one after the other, i.e. no `diff` line between files
         lines = [b"diff -ru a/" + f + b" b/" + f,
                  b"--- a/" + f + b"\t2020-01-01 00:00:00.000000000 +0000",
                  b"+++ b/" + f + b"\t2020-01-02 00:00:00.000000000 +0000", hh] + bl
+        if src == "diffu_bare":
+            lines = lines[1:]
         info["old"] = b"a/" + f
         info["new"] = b"b/" + f
         return lines, info
@@ -88,6 +91,17 @@ def section(kind, n, body="ctx", src="git"):
         hh2 = b"@@ -123456,%d +123456,%d @@ fn deep()" % (sum(1 for l in bl if l[:1] in b" -"),
                                                          sum(1 for l in bl if l[:1] in b" +"))
         lines = [d, b"index 1111111..2222222 100644", b"--- a/" + f, b"+++ b/" + f, hh2] + bl
+    elif kind == "binary_noindex":
+        # `git diff --no-index x y` of two binary files: the diff line names two different paths and
+        # there are no ---/+++ lines
+        lines = [b"diff --git a/" + f + b" b/" + g, b"index 1111111..2222222 100644",
+                 b"Binary files a/" + f + b" and b/" + g + b" differ"]
+        info.update(event="binary", binary=True, has_hunk=False, hunk_lines=[], new=g)
+    elif kind == "commit":
+        # not a file section: the next commit of `git log -p` / concatenated `git show` outputs, directly
+        # after the previous file (no blank line in between)
+        lines = list(COMMIT_BLOCK)
+        info.update(event="commit", has_hunk=False, hunk_lines=[])
     elif kind == "empty":
         lines = [d, b"new file mode 100644", b"index 0000000..e69de29"]
         info.update(event="added", old=b"/dev/null", has_hunk=False, hunk_lines=[])
